@@ -1359,6 +1359,10 @@ func (f *Frame) builtinAppend(in ssa.Instruction, cc *ssa.CallCommon, args [][]T
 	default:
 		tBase, tOff, tLen = args[1][0], args[1][1], args[1][2]
 	}
+	// call-site clauses may constrain what is appended:  callsite append(s []T, elems []T) requires ...
+	if !fromString && !f.spec {
+		f.callsiteObligations(in, "append", "append", nil, [][]Term{s, args[1]}, st)
+	}
 	newLen := c.define("applen", Add(s[2], tLen))
 	fits := Le(newLen, s[3])
 	// fresh backing array for the reallocating case
